@@ -6,6 +6,33 @@ from formats import manifest_common as mc
 from formats import rpms as f_rpms, modules as f_modules, extra_files as f_extra
 
 FORMATS = {"rpms": f_rpms, "modules": f_modules, "extra_files": f_extra}
+# mappings as a loaded (not built) manifest could hold them: the model's branches for ill-shaped states
+# (correspondence only: the property quantifies over manifests built by add calls)
+ILL = {
+    "rpms": [{"Server": 5}, {"Server": {"x86_64": []}}, {"Server": {"x86_64": {"foo-0:1.0-1.src": 7}}}, [], None, "x",
+             {"Server": {"x86_64": {"foo-0:1.0-1.src": {"foo-0:1.0-1.src": None}}}}, {"Server": None}, {"Server": {"x86_64": "y"}}],
+    "modules": [{"Server": 5}, {"Server": {"x86_64": []}}, {"Server": {"x86_64": {"httpd:2.4": 7}}},
+                {"Server": {"x86_64": {"httpd:2.4": {"modulemd_path": 3}}}}, {"Server": {"x86_64": {"httpd:2.4": {"rpms": {}}}}},
+                {"Server": {"x86_64": {"httpd:2.4": {"modulemd_path": {"debug": "d"}, "rpms": None, "metadata": 1}}}}, [], None,
+                {"Server": {"x86_64": {"httpd:2.4": []}}}],
+    "extra_files": [{"Server": 5}, {"Server": {"x86_64": {}}}, {"Server": {"x86_64": "abc"}}, {"Server": []}, [], None,
+                    {"Server": {"x86_64": None}}, {"Server": {"x86_64": [1, "two"]}}],
+}
+ILL_OPS = {
+    "rpms": [{"variant": "Server", "arch": "x86_64", "nevra": "foo-0:1.0-1.src", "path": "p", "sigkey": None, "category": "source", "srpm": None},
+             {"variant": "Client", "arch": "x86_64", "nevra": "foo-0:1.0-1.src", "path": "p", "sigkey": "AB", "category": "source", "srpm": None},
+             {"variant": "Server", "arch": "s390x", "nevra": "foo-libs-0:1.0-1.s390x", "path": "p", "sigkey": None, "category": "binary",
+              "srpm": "foo-0:1.0-1.src"}],
+    "modules": [{"variant": "Server", "arch": "x86_64", "uid": "httpd:2.4", "koji_tag": "t", "modulemd_path": "m.yaml", "category": "binary",
+                 "rpms": {"list": ["a"]}},
+                {"variant": "Server", "arch": "x86_64", "uid": "httpd:2.5", "koji_tag": "t", "modulemd_path": "m.yaml", "category": "debug",
+                 "rpms": {"tuple": ["b"]}},
+                {"variant": "Client", "arch": "x86_64", "uid": "httpd:2.4", "koji_tag": "t", "modulemd_path": "m.yaml", "category": "binary",
+                 "rpms": {"list": []}}],
+    "extra_files": [{"variant": "Server", "arch": "x86_64", "path": "GPL", "size": 1, "checksums": {"md5": "x"}},
+                    {"variant": "Server", "arch": "ppc64le", "path": "GPL", "size": 1, "checksums": {"md5": "x"}},
+                    {"variant": "Client", "arch": "x86_64", "path": "GPL", "size": 1, "checksums": {}}],
+}
 BASES = ["Server/x86_64/os", "Server/x86_64/os/", "Server/x86_64/os//", "Server/x86_64/o", "Server/x86", "Client", "", "/",
          "a/b", "a/b/", "a", "a/", "a/b/c", "Server/x86_64/os/GPL", "docs", "doc", "a/bc", "Server/x86_64/os2"]
 
@@ -17,8 +44,8 @@ def strip_ops(ops):
 class C12(Prop):
     id = "C12"
     lean_module = "ProductMD.Properties.C12"
-    quick_budget = 700
-    thorough_budget = 12000
+    quick_budget = 2400
+    thorough_budget = 40000
     rule = ("histories of add calls (rpms / modules / extra_files round-robin; valid, one-parameter-corrupted and randomly mutated "
             "arguments; repeats; the same entry under several variants/arches) run step by step on the real object and on the Lean "
             "model: outcome class and the whole mapping compared after EVERY call; oracle per call on the real object: refused => "
@@ -31,12 +58,15 @@ class C12(Prop):
     partial = {}
 
     def cases(self, rng, tier, budget):
+        f_rpms.reset_budget()
         kinds = ["rpms", "modules", "extra_files"]
         n_tree = max(30, budget // 8)
         n_rel = max(60, budget // 5)
-        for i in range(budget):
-            k = kinds[i % 3]
-            yield {"op": "trace", "args": {"kind": k, "ops": FORMATS[k].gen_ops(rng, tier)}}
+        for k in kinds:
+            for init in ILL[k]:
+                for _ in range(2):
+                    ops = [dict(rng.choice(ILL_OPS[k])) for _ in range(rng.choice([1, 2, 3]))]
+                    yield {"op": "trace_init", "args": {"kind": k, "init": init, "ops": ops}}
         for i in range(n_tree):
             ops = f_extra.gen_ops(rng, tier, n=rng.choice([1, 3, 6]), valid_only=rng.random() < 0.85)
             v = ops[0]["variant"] if rng.random() < 0.9 else "Nope"
@@ -53,6 +83,9 @@ class C12(Prop):
             else:
                 root = mc.mutate_str(rng, rng.choice(BASES), alphabet="/ab.")
             yield {"op": "relative_to", "args": {"path": path, "root": root}}
+        for i in range(budget):
+            k = kinds[i % 3]
+            yield {"op": "trace", "args": {"kind": k, "ops": FORMATS[k].gen_ops(rng, tier)}}
 
     # ---- real side
     def real(self, case):
@@ -61,6 +94,11 @@ class C12(Prop):
         if case["op"] == "trace":
             f = FORMATS[a["kind"]]
             obj = f.new()
+            return {"steps": mc.run_trace(obj, f.mapping, f.add, a["ops"])}
+        if case["op"] == "trace_init":
+            f = FORMATS[a["kind"]]
+            obj = f.new()
+            setattr(obj, {"rpms": "rpms", "modules": "modules", "extra_files": "extra_files"}[a["kind"]], copy.deepcopy(a["init"]))
             return {"steps": mc.run_trace(obj, f.mapping, f.add, a["ops"])}
         if case["op"] == "relative_to":
             return checklib.guarded(pm.extra_files._relative_to, a["path"], a["root"])
@@ -83,6 +121,8 @@ class C12(Prop):
         a = case["args"]
         if case["op"] == "trace":
             return [{"op": "bld_trace", "args": {"kind": a["kind"], "ops": strip_ops(a["ops"])}}]
+        if case["op"] == "trace_init":
+            return [{"op": "bld_trace", "args": {"kind": a["kind"], "init": a["init"], "ops": a["ops"]}}]
         if case["op"] == "relative_to":
             return [{"op": "bld_relative_to", "args": a}]
         if case["op"] == "dump_for_tree":
@@ -90,7 +130,7 @@ class C12(Prop):
         return []
 
     def model_result(self, case, outs):
-        if case["op"] == "trace":
+        if case["op"] in ("trace", "trace_init"):
             return {"steps": outs[0]}
         if case["op"] == "relative_to":
             return {"ok": outs[0]}
@@ -100,7 +140,7 @@ class C12(Prop):
         if case["op"] == "dump_for_tree":
             real_out = dict((k, v) for k, v in real_out.items() if k != "stored")
         if json.dumps(real_out, sort_keys=True) != json.dumps(model_out, sort_keys=True):
-            if case["op"] == "trace":
+            if case["op"] in ("trace", "trace_init"):
                 for i, (r, m) in enumerate(zip(real_out["steps"], model_out["steps"])):
                     if json.dumps(r, sort_keys=True) != json.dumps(m, sort_keys=True):
                         return {"real": {"step": i, "op": case["args"]["ops"][i], "got": r}, "model": {"step": i, "got": m}}
@@ -168,6 +208,12 @@ class C12(Prop):
                     d["accepted"] += 1
                 else:
                     d["refused"][st["out"]["err"]] = d["refused"].get(st["out"]["err"], 0) + 1
+        elif case["op"] == "trace_init":
+            d = dist.setdefault("trace_init", {"histories": 0, "outcomes": {}})
+            d["histories"] += 1
+            for st in real_out["steps"]:
+                o = st["out"].get("err", "ok")
+                d["outcomes"][o] = d["outcomes"].get(o, 0) + 1
         else:
             d = dist.setdefault(case["op"], {"n": 0, "stripped": 0, "err": 0})
             d["n"] += 1
